@@ -8,7 +8,7 @@ TIMEOUT = 600
 RULE = ('for every registered JSON-RPC method (28, taken from REGISTER_APIFUNCTION) on a depth-4 zone forest '
         '(grandparent/parent/receiver/child/grandchild/sibling/unrelated root + child/global): every sender relation x every object zone '
         '(state/event methods) x {authenticated endpoint, unauthenticated connection under an endpoint name, authenticated under an unconfigured name}; '
-        'same-zone peers with every claimed originZone (incl. unknown); accept_config/accept_commands in all four combinations for the config/command methods; '
+        'every method x every sender relation x every claimed originZone (none, receiver zone, parent, grandparent, child, grandchild, sibling, unrelated, global, nonexistent name); accept_config/accept_commands in all four combinations for the config/command methods; '
         'messages with no/newer/older "ts"; check results from the command endpoint; then random forests (4-9 zones, random receiver, sender, object, flags). '
         'Each message goes through the real JsonRpcConnection::MessageHandler with parameters that are prepared so that an accepted message has a visible effect. '
         'non-trivial = the case contains at least one applied and one refused message; distinct = distinct script text')
@@ -104,12 +104,23 @@ def generate(seed, tier):
                 if not keep(m):
                     continue
                 msgs.append(('relation-x-object', F, msg(F, recv, snd, m, obj, auth=auth, ident=ident)))
-    # same-zone peer vouching for an origin zone
+    # claimed originZone: every method x every sender relation x every claim (none, receiver's zone, parent, grandparent,
+    # child, grandchild, sibling, unrelated, global, nonexistent name).  Only a peer of the receiver's own zone is trusted.
+    CLAIMS = ['-', '2', '1', '0', '3', '4', '5', '6', '8', 'x']
     for m in METHODS:
-        for claim in ['0', '1', '2', '3', '5', '8', 'x']:
-            for obj in ([2, 3, 1] if m in OBJ_METHODS else [2]):
-                if keep(m):
-                    msgs.append(('peer-claimed-origin', F, msg(F, recv, '2b', m, obj, claim=claim)))
+        for (snd, auth, ident) in senders:
+            for claim in CLAIMS:
+                if claim == '-' and snd != '2b':
+                    continue          # covered by relation-x-object
+                objs = [2, 1, 3, 5] if m in OBJ_METHODS else [2]
+                if snd == '2b' and auth == 1 and ident == 'ep':
+                    sel = objs[:3]                       # trusted peer: several object zones per claim
+                else:
+                    sel = [rnd.choice(objs)]
+                for obj in sel:
+                    if keep(m):
+                        fam = 'peer-claimed-origin' if (snd == '2b' and auth == 1 and ident == 'ep') else 'foreign-claimed-origin'
+                        msgs.append((fam, F, msg(F, recv, snd, m, obj, auth=auth, ident=ident, claim=claim)))
     # accept flags
     for m in FLAG_METHODS:
         for (snd, auth, ident) in senders:
@@ -140,7 +151,8 @@ def generate(seed, tier):
                     snd = '%db' % r
                 obj = rnd.choice(objs_all) if m in OBJ_METHODS else r
                 if keep(m, 0.7):
-                    msgs.append(('other-receivers', F, msg(F, r, snd, m, obj, ac=rnd.randint(0, 1), ak=rnd.randint(0, 1))))
+                    msgs.append(('other-receivers', F, msg(F, r, snd, m, obj, ac=rnd.randint(0, 1), ak=rnd.randint(0, 1),
+                                                           claim=rnd.choice(['-', '-', str(rnd.choice(F.real)), '8', 'x']))))
     # ts handling
     for _ in range(int(120 * scale)):
         m = rnd.choice(METHODS)
@@ -191,8 +203,8 @@ def generate(seed, tier):
             else:
                 obj = r
             claim = '-'
-            if z == r and rnd.random() < 0.6:
-                claim = rnd.choice([str(rnd.randrange(G.n)), 'x', str(r)])
+            if rnd.random() < (0.6 if z == r else 0.4):
+                claim = rnd.choice([str(rnd.randrange(G.n)), str(rnd.randrange(G.n)), 'x', str(r), str(z)])
             xz = rnd.choice(G.real) if m == 'event::ExecutedCommand' else None
             msgs.append(('random-forest', G, msg(G, r, snd, m, obj, auth=auth, ident=ident, claim=claim,
                                                  ts=rnd.choice(['none', 'none', 'none', 'new', 'old']),
@@ -255,12 +267,22 @@ def keep_line(l):
 def extra_stats(cases, impl):
     per = collections.Counter()
     kinds = collections.Counter()
+    claims = collections.Counter()
     applied = refused = 0
     for c in cases:
         ml = _msg_lines(c)
         il = [l for l in impl.get(c['id'], []) if l.startswith('msg ')]
         for s, o in zip(ml, il):
             meth = re.search(r' m=(\S+)', s).group(1)
+            f = dict(t.split('=', 1) for t in s.split()[1:] if '=' in t)
+            if f.get('claim', '-') != '-':
+                claims['messages_carrying_originZone'] += 1
+                trusted = f['auth'] == '1' and f['ident'] == 'ep' and f['snd'][:-1] == f['recv']
+                k = 'from_peer_of_receiver_zone(honoured)' if trusted else ('from_sender_without_endpoint(no zone at all)' if (f['auth'] == '0' or f['ident'] != 'ep') else 'from_other_zone(must_be_ignored)')
+                claims[k] += 1
+                claims[k + (' applied' if ' app=1' in o else ' not_applied')] += 1
+                if f['claim'] == 'x':
+                    claims['nonexistent_zone_name'] += 1
             if ' app=1' in o:
                 applied += 1
                 per[meth + ' applied'] += 1
@@ -272,4 +294,5 @@ def extra_stats(cases, impl):
                 per[meth + ' refused'] += 1
     return {'messages_applied': applied, 'messages_refused_or_inert': refused,
             'accepted_messages_with_visible_effect': 'all: the model line app=1 means "authorised and effectful"; any accepted message without a visible change would be a trace mismatch (mismatches are reported above)',
+            'origin_claims': dict(sorted(claims.items())),
             'what_changed_tokens': dict(kinds), 'per_method': dict(sorted(per.items()))}
